@@ -20,7 +20,7 @@ open CodeWrite (encInsn resolveAt LabelsOk offs fitsI16 Unwritten)
 open FrameReadBack (posOf)
 
 /-- what `putInsn` makes of a tree instruction whose labels are instruction indices and whose constant got the pool
-index `cp`; `invokedynamic` is outside the proved fragment -/
+index `cp` -/
 def cw (cp : Nat) : ClassRead.Insn → Option CodeWrite.Insn
   | .simple op => some (.simple op)
   | .bipush v => some (.bipush v)
@@ -40,7 +40,7 @@ def cw (cp : Nat) : ClassRead.Insn → Option CodeWrite.Insn
   | .invokespecial _ _ => some (.cp 0xb7 cp)
   | .invokestatic _ _ => some (.cp 0xb8 cp)
   | .invokeinterface m => some (.invokeinterface cp m.desc)
-  | .invokedynamic _ => none
+  | .invokedynamic _ => some (.invokedynamic cp)
   | .new _ => some (.cp 0xbb cp)
   | .newarray a => some (.newarray a)
   | .anewarray _ => some (.cp 0xbd cp)
@@ -377,7 +377,11 @@ theorem encInsn_sinsn {ri : ClassRead.Insn} {cp : Nat} {i : CodeWrite.Insn} (hcw
     · rename_i c hc
       cases henc
       simp [sinsnOf, SInsn.encode, padOf, hc, u16b_be16', formOf]
-  | invokedynamic d => cases hcw
+  | invokedynamic d =>
+    cases hcw
+    rw [plain_fin rfl henc hres]
+    simp only [encInsn] at henc; cases henc
+    simp [sinsnOf, SInsn.encode, u16b_be16', formOf]
   | new c =>
     cases hcw
     rw [plain_fin rfl henc hres]
